@@ -249,6 +249,14 @@ def _history(res: Result, h: int, payloads: list, loop, pairs_seen: set, distinc
             sink_kinds = SINK_KINDS if (h % 4 == 0 or res.tier == "thorough") else SINK_KINDS[:2] + (SINK_KINDS[2 + h % 3],)
             outputs = {}
             for kind in sink_kinds:
+                if rng.random() < 0.3:
+                    # history noise: an earlier message on another connection is cut off by a sink error at a random write call
+                    res.count("failed_write_noise")
+                    w0, v0 = rng.choice(wv)
+                    try:
+                        w0(WriteOnlySink(fail_at=rng.randrange(12), fail_exc=ConnectionResetError("injected")), v0)
+                    except Exception:  # noqa: BLE001
+                        pass
                 try:
                     got, events, calls = _write_all(kind, wv, prefix, suffix, loop)
                 except Exception as exc:  # noqa: BLE001
@@ -280,6 +288,15 @@ def _history(res: Result, h: int, payloads: list, loop, pairs_seen: set, distinc
                 pos += len(part)
                 want_positions.append(pos)
             for kind in source_kinds:
+                if rng.random() < 0.3:
+                    # history noise: an earlier connection delivered only part of a message
+                    res.count("failed_read_noise")
+                    k0 = rng.randrange(len(readers))
+                    part = ref_parts[k0]
+                    try:
+                        readers[k0](io.BytesIO(part[: rng.randrange(len(part))] if part else b""))
+                    except Exception:  # noqa: BLE001
+                        pass
                 try:
                     values, positions, events = _read_all(kind, readers, expected, len(prefix), [len(p) for p in ref_parts])
                 except Exception as exc:  # noqa: BLE001
